@@ -24,6 +24,11 @@ CLAIMED = {
             "malformed request at any position, every segmentation mode) x application read/answer orders, judged against a "
             "sequential model of a persistent connection using global event sequence numbers.",
             "clients never send bytes after a request that asked to close; a fully arrived but unread request body may count as complete or not"),
+    "C07": ("5/C07", "Seeded search over session histories (fast/slow requests, server-generated 404s, partial heads, pipelined pairs, "
+            "concurrent HTTP/2 streams) with pauses on a grid around each keep_alive_timeout value, peer loss at every phase and "
+            "shutdown while idle; close instants are compared with the admissible window derived from observed idle/busy "
+            "intervals, handler and socket lifetimes with a 0.1 s promptness bound. Two defects recorded as known findings (F10, F12).",
+            "applications return as soon as they see the disconnect; handler lifetimes are observed through a run-time wrapper around TCPServer.run"),
 }
 
 NOT_APPLICABLE = {
